@@ -94,13 +94,13 @@ def run_driver(drv, cmds, rd, tag="t", timeout=1800, env=None):
 
 # ------------------------------------------------------------------ TLC
 
-def _java_cmd(accel, xmx="3g", extra_props=(), gcthreads=2):
+def _java_cmd(accel, xmx="3g", extra_props=(), gcthreads=2, level="full"):
     cp = [JAR, CMJAR]
     if accel:
         if not os.path.isdir(OVR):
             raise Infra("accelerator classes missing: run bin/setup.sh")
         cp.append(OVR)
-        extra_props = list(extra_props) + ["-Dtlc2.overrides.TLCOverrides=tlc2.overrides.TLCOverrides:VerifOverrides"]
+        extra_props = list(extra_props) + ["-Dtlc2.overrides.TLCOverrides=tlc2.overrides.TLCOverrides:VerifOverrides" + ("L1" if level == "L1" else "")]
     return (["java", "-XX:+UseParallelGC", "-XX:ParallelGCThreads=%d" % gcthreads, "-Xss512m", "-Xmx" + xmx] + list(extra_props) +
             ["-cp", ":".join(cp), "tlc2.TLC"])
 
